@@ -325,11 +325,11 @@ func walBody(c *mc.Ctx) {
 	depth := c.Param.(int)
 	fs := storage.NewMemoryFilesystem()
 	w := wal.NewWriter(fs, 0, 1<<20)
-	var ops []walOp     // everything appended so far
-	var cuts []uint64   // sequence numbers at cut boundaries
-	var trunc uint64    // largest truncation point
-	var seq uint64      // last sequence number
-	var sinceCut bool   // entries appended since the last cut
+	var ops []walOp   // everything appended so far
+	var cuts []uint64 // sequence numbers at cut boundaries
+	var trunc uint64  // largest truncation point
+	var seq uint64    // last sequence number
+	var sinceCut bool // entries appended since the last cut
 	rotations, truncs := 0, 0
 	verify := func(saved *wal.Writer) {
 		for after := trunc; after <= seq; after++ {
